@@ -4,7 +4,7 @@
   guards of `CDSCollection.__init__` / `Feature.__init__` / the `parent` setter that the
   constructor runs (cdscollection.py, feature.py).  One Lean function per Python function,
   same branch order, same iteration sources.  The model is of the code *after* the repairs
-  fixes/D16 … D506 (see design/C05.md); every `raise` / `assert` reachable from
+  fixes/D16 … D507 (see design/C05.md); every `raise` / `assert` reachable from
   `create_candidates_from_protoclusters` is an explicit `Except` value
   ("value-error", "assertion").
 
@@ -28,6 +28,7 @@ structure Proto where
   loc : Loc
   core : Loc
   defs : List Nat
+  product : String := ""
 deriving DecidableEq, Repr, Inhabited
 
 /-- a candidate cluster: kind, member protoclusters (in the order the constructor received
@@ -50,6 +51,45 @@ def insertBy (lt : α → α → Bool) (x : α) : List α → List α
 
 /-- `sorted(l)` with the given `<` (stable) -/
 def sortBy (lt : α → α → Bool) (l : List α) : List α := l.foldr (insertBy lt) []
+
+/-! CPython's `list.sort` for fewer than 64 elements (one run: `count_run`, then `binarysort`).
+    With a consistent `<` this equals any stable sort; `CDSCollection.__lt__` is not consistent when a
+    whole-record extent meets origin-spanning ones (both `a < b` and `b < a`), and then the result is
+    whatever this algorithm produces — so the algorithm itself is modelled. -/
+
+/-- `count_run`: length of the initial run and whether it is (strictly) descending -/
+def countRunGo (lt : α → α → Bool) (desc : Bool) : α → Nat → List α → Nat
+  | _, n, [] => n
+  | prev, n, x :: xs =>
+    if desc then (if lt x prev then countRunGo lt desc x (n + 1) xs else n)
+    else (if lt x prev then n else countRunGo lt desc x (n + 1) xs)
+
+def countRun (lt : α → α → Bool) : List α → Nat × Bool
+  | [] => (0, false)
+  | [_] => (1, false)
+  | a :: b :: rest => if lt b a then (countRunGo lt true b 2 rest, true) else (countRunGo lt false b 2 rest, false)
+
+/-- the binary search of `binarysort`: `while l < r: p = l + (r - l) // 2; if pivot < a[p]: r = p else: l = p + 1` -/
+def binSearch (lt : α → α → Bool) (sorted : List α) (pivot : α) : Nat → Nat → Nat → Nat
+  | 0, l, _ => l
+  | fuel + 1, l, r =>
+    if l < r then
+      let p := l + (r - l) / 2
+      match sorted[p]? with
+      | some x => if lt pivot x then binSearch lt sorted pivot fuel l p else binSearch lt sorted pivot fuel (p + 1) r
+      | none => l
+    else l
+
+/-- insert `pivot` into the sorted prefix at the position the binary search finds -/
+def binInsert (lt : α → α → Bool) (sorted : List α) (pivot : α) : List α :=
+  let i := binSearch lt sorted pivot (sorted.length + 1) 0 sorted.length
+  sorted.take i ++ pivot :: sorted.drop i
+
+/-- `sorted(l)` as CPython computes it for `len(l) < 64` -/
+def pySort (lt : α → α → Bool) (l : List α) : List α :=
+  let cr := countRun lt l
+  let run := if cr.2 then (l.take cr.1).reverse else l.take cr.1
+  (l.drop cr.1).foldl (binInsert lt) run
 
 /-- `set(l)` keeping the first occurrences -/
 def dedup : List α → List α
@@ -125,9 +165,16 @@ def locLt (a b : Loc) : Bool :=
 def protoLt (a b : Proto) : Bool := locLt a.loc b.loc
 def candLt (a b : Cand) : Bool := locLt a.loc b.loc
 
-/-- `sorted(protoclusters)` -/
-def sortProtos (l : List Proto) : List Proto := sortBy protoLt l
-def sortCands (l : List Cand) : List Cand := sortBy candLt l
+/-- the fixed order of protoclusters with identical coordinates (fix D507):
+    `(cluster.product, core_location.start, core_location.end)` -/
+def tieLt (a b : Proto) : Bool :=
+  decide (a.product < b.product) || (a.product == b.product &&
+    (decide (a.core.start < b.core.start) || (a.core.start == b.core.start && decide (a.core.end < b.core.end))))
+
+/-- `_sorted_protoclusters`: `sorted(sorted(protoclusters, key=(product, core)))` — by location
+    (`CDSCollection.__lt__`, stable), ties in the fixed order -/
+def sortProtos (l : List Proto) : List Proto := pySort protoLt (sortBy tieLt l)
+def sortCands (l : List Cand) : List Cand := pySort candLt l
 
 /-- `_merge_sets`: the key is `min(cluster.location.start for cluster in group)` -/
 def groupKey (g : List Proto) : Int := minList (g.map (·.loc.start))
@@ -407,7 +454,10 @@ def buildOne (wrap : Option Int) (kind : Kind) (t : Table) (group : List Proto) 
       | none => .ok (t.set key cand)
       | some ex =>
         let extras := diffL (dedup group) ex.members
-        if extras.isEmpty then .ok t
+        if extras.isEmpty then
+          -- the dropped candidate's protoclusters are re-parented to the kept one
+          -- (`protocluster.parent = existing_candidate` asserts containment)
+          if !(group.all fun m => locationContainsOther ex.loc m.loc) then .error "assertion" else .ok t
         else match mkCand wrap ex.kind (sortProtos (dedup ex.members ++ extras)) with
           | .error e => .error e
           | .ok replacement =>
@@ -458,7 +508,7 @@ def formationCore (ps : List Proto) (wrap : Option Int) : E (List Cand) :=
             match buildCandidates wrap .neighbouring t2 (findNeighbouring un2 (sortCands t2.values)) with
             | .error e => .error e
             | .ok t3 =>
-              match addSingles wrap t3 (dedup (un2 ++ t3.singles)) with
+              match addSingles wrap t3 (sortProtos (dedup (un2 ++ t3.singles))) with
               | .error e => .error e
               | .ok singles => .ok (sortCands t3.values ++ singles)
 
